@@ -128,9 +128,20 @@ func (i *Item) Value(fn func(val []byte) error) error {
 	if vsym.Fault("badger.Item.Value") {
 		return inj("badger Item.Value failed")
 	}
-	return i.real.Value(fn)
+	// badger's contract: the slice is only valid inside the callback (the buffer is reused).  Real
+	// badger reuses it only after ~100 further items; here, as in the executor's model, it is
+	// overwritten at once, so that code which keeps the slice without copying it shows natively too.
+	return i.real.Value(func(val []byte) error {
+		buf := append([]byte(nil), val...)
+		err := fn(buf)
+		for k := range buf {
+			buf[k] = 0xdb
+		}
+		return err
+	})
 }
 
+func (i *Item) ValueCopy(dst []byte) ([]byte, error) { return i.real.ValueCopy(dst) }
 func (i *Item) Key() []byte { return i.real.Key() }
 
 func (it *Iterator) Rewind()     { it.real.Rewind() }
